@@ -55,7 +55,9 @@ type Opts struct {
 }
 
 func (opts *Opts) init() {
-	utils.SetDefaultNum(&opts.Size, 1024)
+	if opts.Size < 1024 { // The documented minimum size is 1024.
+		opts.Size = 1024
+	}
 	utils.SetDefaultNum(&opts.CleanerInterval, defaultCleanerInterval)
 }
 
